@@ -209,6 +209,10 @@ SIG = {
     'pubkey_from_hex': ('keys.py', 'PublicKey.__init__',
                         [('sqrt_mod', 'Int → Int → List Int'), ('verifyingkey_from_string', 'Bytes → Except PyErr (Nat × Nat)'),
                          ('hex_str', 'List Char')], 'Nat × Nat'),
+    # the taproot output key of a public key: (x-only hex, parity) — the hex string as the bytes it denotes
+    'pubkey_to_taproot_hex': ('keys.py', 'PublicKey.to_taproot_hex',
+                              [('hashlib_sha256', 'Bytes → Bytes'), ('OPS', 'List (String × Bytes)'), ('self_key_string', 'Bytes'),
+                               ('scripts', 'Py.PyScripts')], 'Bytes × Bool'),
     # taproot signing: the key object is its 32 secret bytes, the public-key object its 64 bytes x || y
     'sign_taproot_input': ('keys.py', 'PrivateKey._sign_taproot_input',
                            [('hashlib_sha256', 'Bytes → Bytes'), ('OPS', 'List (String × Bytes)'), ('self_key_bytes', 'Bytes'),
@@ -244,7 +248,7 @@ STR_CALLS = {'bech32_create_checksum': ('bech32_create_checksum', False), 'bech3
              'decode': ('segwit_decode', False)}
 # functions over the script tree; recursive ones get a fuel parameter (the depth of the tree + 1: proved never exhausted)
 TREEFUNS = {'tag_hashed_merkle_root': ('get_tag_hashed_merkle_root', '(Py.treeDepth scripts + 1)'), 'calculate_tweak': (None, None),
-            'sign_taproot_input': (None, None), 'traverse_level': ('traverse_level', '(Py.treeDepth level + 1)'),
+            'sign_taproot_input': (None, None), 'pubkey_to_taproot_hex': (None, None), 'traverse_level': ('traverse_level', '(Py.treeDepth level + 1)'),
             'generate_merkle_path': (None, None), 'control_block_to_bytes': (None, None)}
 # a nested function's `nonlocal` counter, threaded: parameter in, extra result component out
 NONLOCAL_STATE = {'traverse_level': 'traversed'}
@@ -690,6 +694,12 @@ class Tr:
             def is_self_pub(x):
                 return (isinstance(x, ast.Call) and isinstance(x.func, ast.Attribute) and x.func.attr == 'get_public_key' and not x.args
                         and isinstance(x.func.value, ast.Name) and x.func.value.id == 'self')
+            if s.name == 'pubkey_to_taproot_hex':
+                if (f == 'calculate_tweak' and len(a) == 2 and isinstance(a[0], ast.Name) and a[0].id == 'self' and istree(a[1])
+                        and not n.keywords):
+                    return s.eff(f'calculate_tweak hashlib_sha256 OPS self_key_string {a[1].id}')      # the key object is its 64 bytes
+                if f == 'tweak_taproot_pubkey' and len(a) == 2 and is_self_key(a[0]) and not n.keywords:
+                    return s.eff(f'tweak_taproot_pubkey self_key_string {s.e(a[1])}')
             if s.name == 'sign_taproot_input':
                 if f == 'calculate_tweak' and len(a) == 2 and is_self_pub(a[0]) and istree(a[1]):
                     return s.eff(f'calculate_tweak hashlib_sha256 OPS pubkey_bytes {a[1].id}')
@@ -1101,6 +1111,8 @@ class Tr:
         return False
 
     def isbool(s, n):
+        if (s.name == 'pubkey_to_taproot_hex' and isinstance(n, ast.Subscript) and isinstance(n.value, ast.Name) and n.value.id in s.pairvars
+                and isinstance(n.slice, ast.Constant) and n.slice.value == 1): return True        # (bytes, bool)[1]
         return (isinstance(n, (ast.Compare, ast.BoolOp)) or (isinstance(n, ast.UnaryOp) and isinstance(n.op, ast.Not))
                 or (isinstance(n, ast.Constant) and isinstance(n.value, bool)))
 
@@ -1124,10 +1136,14 @@ class Tr:
             return 'bytes' if s.isbytes(n) else None
         if isinstance(n, ast.Subscript) and isinstance(n.slice, ast.Slice): return s.kind(n.value)
         if isinstance(n, ast.Subscript) and s.is_unpack_from(n.value): return 'bytes' if s.isbytes(n) else None
+        if s.name == 'pubkey_to_taproot_hex' and isinstance(n, ast.Subscript) and s.isbytes(n): return 'bytes'
         return None
 
     def isbytes(s, n):
         """is the value a sequence (bytes or list), i.e. does `+` mean concatenation"""
+        if (s.name == 'pubkey_to_taproot_hex' and isinstance(n, ast.Subscript) and isinstance(n.value, ast.Name) and n.value.id in s.pairvars
+                and isinstance(n.slice, ast.Constant) and n.slice.value == 0): return True        # (bytes, bool)[0]
+        if s.name == 'pubkey_to_taproot_hex' and isinstance(n, ast.Subscript) and isinstance(n.slice, ast.Slice): return s.isbytes(n.value)
         if isinstance(n, ast.Constant): return isinstance(n.value, bytes)
         if isinstance(n, (ast.List, ast.ListComp)): return True
         if isinstance(n, ast.Attribute) and isinstance(n.value, ast.Name) and n.value.id == 'self': return 'self_' + n.attr in s.bytesvars
@@ -1385,8 +1401,14 @@ class Tr:
             if s.name in NONLOCAL_STATE and isinstance(st, ast.Return):
                 v = s.e(st.value)
                 return s.flush(ind) + [f'{ind}return ({v}, {NONLOCAL_STATE[s.name]})']
+            if (s.name == 'pubkey_to_taproot_hex' and isinstance(st, ast.Return) and isinstance(st.value, ast.Tuple) and len(st.value.elts) == 2):
+                a_, b_ = st.value.elts
+                if not (isinstance(a_, ast.Call) and isinstance(a_.func, ast.Attribute) and a_.func.attr == 'hex' and not a_.args
+                        and s.isbytes(a_.func.value)): s.fail(st, 'first component is not <bytes>.hex()')
+                return s.flush(ind) + [f'{ind}return ({s.e(a_.func.value)}, {s.cond(b_)})']
             if (isinstance(st, ast.Assign) and len(st.targets) == 1 and isinstance(st.targets[0], ast.Name)
-                    and isinstance(st.value, ast.Call) and getattr(st.value.func, 'id', '') == 'traverse_level'):
+                    and isinstance(st.value, ast.Call) and getattr(st.value.func, 'id', '') in (
+                        ('traverse_level', 'tweak_taproot_pubkey') if s.name == 'pubkey_to_taproot_hex' else ('traverse_level',))):
                 nm = st.targets[0].id
                 v = s.e(st.value)
                 kw_ = '' if nm in s.declared else 'let mut '
